@@ -60,6 +60,65 @@ fn node_for(root: &dyn WritableZoneNode, owner: &str) -> Option<Box<dyn Writable
     Some(node)
 }
 
+/// The content a batch turns `base` into (before a commit's serial bump).
+fn apply_ops(base: &Content, ops: &[WOp]) -> Content {
+    let mut working = base.clone();
+    for op in ops {
+        match op {
+            WOp::Update(o, t, ttl, rds) | WOp::RemoveUpdate(o, t, ttl, rds) => {
+                working.insert((o.clone(), *t), (*ttl, rds.clone()));
+            }
+            WOp::Remove(o, t) => {
+                working.remove(&(o.clone(), *t));
+            }
+            WOp::RemoveAll(readd) => {
+                working.clear();
+                if let Some(s) = readd {
+                    working.insert((APEX.to_string(), Rtype::SOA), s.clone());
+                }
+            }
+        }
+    }
+    working
+}
+
+/// `commit(true)` bumps the serial unless the writer wrote an SOA itself.
+fn bump_soa(base: &Content, working: &mut Content) {
+    let old_soa = base.get(&(APEX.to_string(), Rtype::SOA)).cloned();
+    let new_soa = working.get(&(APEX.to_string(), Rtype::SOA)).cloned();
+    if let Some((ttl, rds)) = old_soa.clone() {
+        if new_soa.is_none() || new_soa == old_soa {
+            let rd = rds.iter().next().unwrap();
+            let mut parts: Vec<String> = rd.split_whitespace().map(|s| s.to_string()).collect();
+            let serial: u32 = parts[2].parse().unwrap();
+            parts[2] = serial.wrapping_add(1).to_string();
+            let mut s = BTreeSet::new();
+            s.insert(canon_rdata(APEX, Rtype::SOA, &parts.join(" ")));
+            working.insert((APEX.to_string(), Rtype::SOA), (ttl, s));
+        }
+    }
+}
+
+/// Obtain the write handle, giving the turn away while another writer has it.
+fn obtain_writer(zone: &Zone) -> Box<dyn WritableZone> {
+    let waker = futures_util::task::noop_waker();
+    let mut cx = std::task::Context::from_waker(&waker);
+    let mut fut = zone.write();
+    let mut failed = 0;
+    loop {
+        match fut.as_mut().poll(&mut cx) {
+            std::task::Poll::Ready(w) => return w,
+            std::task::Poll::Pending => {
+                failed += 1;
+                if std::env::var("DSIM_DEBUG_THREADS").is_ok() && failed < 4 {
+                    eprintln!("{:?} pending #{}", std::thread::current().name(), failed);
+                }
+                crate::core::threads::yield_blocked(usize::MAX, failed);
+            }
+        }
+    }
+}
+
 const PLAIN: [Rtype; 4] = [Rtype::A, Rtype::TXT, Rtype::AAAA, Rtype::MX];
 
 fn gen_rdata(rtype: Rtype) -> String {
@@ -105,12 +164,12 @@ impl Scenario for ThreadsScn {
         )
     }
     fn rule(&self) -> &'static str {
-        "per run: a zone of 3-9 records over 3-6 names; one writer thread executes 1-3 pre-drawn batches (0-4 update / remove / remove+update / remove_all operations through the low-level write interface, with or without diff collection; committed with or without serial bump, or dropped uncommitted); 1-3 reader threads each take 1-2 readers and observe each 2-3 times (walk plus exact-name queries); the choice tape decides at every lock acquisition of any thread which thread proceeds. Oracles: a reader's first walk equals exactly one committed version that was current between just before and just after it was obtained; every later observation through the same reader is identical; an RRset of that version asked for by exact name is returned exactly; after all threads end a new reader sees the last commit; no deadlock, no panic."
+        "per run: a zone of 3-9 records over 3-6 names; one writer thread (two in a third of the runs, contending for the async writer mutex) executes 1-3 pre-drawn batches (0-4 update / remove / remove+update / remove_all operations through the low-level write interface, with or without diff collection; committed with or without serial bump, or dropped uncommitted); 1-3 reader threads each take 1-2 readers and observe each 2-3 times (walk plus exact-name queries); the choice tape decides at every lock acquisition of any thread which thread proceeds. Oracles: a reader's first walk equals exactly one committed version that was current between just before and just after it was obtained; every later observation through the same reader is identical; a writer never obtains the handle while another still holds it or is still rolling back; an RRset of that version asked for by exact name is returned exactly; after all threads end a new reader sees the last commit; no deadlock, no panic."
     }
     fn assumptions(&self) -> Vec<&'static str> {
         vec![
             "all shared mutable state of the zone tree is behind the hooked locks, so interleaving at lock acquisitions covers what real schedules can produce; the simulated threads are never truly parallel (hardware memory-model effects are out of scope; the code has no lock-free shared state besides reference counts)",
-            "one writer: writer/writer serialisation is the cooperative zone_isolation scenario's",
+            "with two writers the version model is built at run time: each writer applies its batch to what was committed last when it obtained the handle",
             "negative answers are not compared here (the known node-creation finding is reported by zone_isolation)",
         ]
     }
@@ -141,95 +200,94 @@ fn run(_tier: Tier) {
             return;
         }
     };
-    let mut versions: Vec<Content> = vec![c0.clone()];
-    let mut batches: Vec<Batch> = Vec::new();
-    let n_batches = 1 + sim::draw("batches", 3);
-    for _ in 0..n_batches {
-        let mut working = versions.last().unwrap().clone();
-        let mut ops = Vec::new();
-        for _ in 0..sim::draw("batch.n_ops", 5) {
-            let owner = sim::pick("op.owner", &names).clone();
-            let rtype = *sim::pick("op.type", &PLAIN);
-            let ttl = *sim::pick("op.ttl", &[300u32, 60]);
-            let mut rds = BTreeSet::new();
-            for _ in 0..1 + sim::draw("op.rrset_size", 2) {
-                rds.insert(canon_rdata(&owner, rtype, &gen_rdata(rtype)));
-            }
-            match sim::draw("op.kind", 8) {
-                0..=3 => {
-                    working.insert((owner.clone(), rtype), (ttl, rds.clone()));
-                    ops.push(WOp::Update(owner, rtype, ttl, rds));
+    // Batches for one or two writers. The second writer contends for the
+    // async writer mutex; what each batch does to the content is applied by
+    // the writer itself to whatever was committed last when it got the
+    // handle (writers are serialised, so that is well defined).
+    let n_writers = if sim::chance("writers.two", 1, 3) { 2 } else { 1 };
+    let mut plans_w: Vec<Vec<Batch>> = Vec::new();
+    let mut touched: BTreeSet<(String, Rtype)> = c0.keys().cloned().collect();
+    for _ in 0..n_writers {
+        let mut batches: Vec<Batch> = Vec::new();
+        let n_batches = 1 + sim::draw("batches", 3);
+        let mut working = c0.clone();
+        for _ in 0..n_batches {
+            let mut ops = Vec::new();
+            for _ in 0..sim::draw("batch.n_ops", 5) {
+                let owner = sim::pick("op.owner", &names).clone();
+                let rtype = *sim::pick("op.type", &PLAIN);
+                let ttl = *sim::pick("op.ttl", &[300u32, 60]);
+                let mut rds = BTreeSet::new();
+                for _ in 0..1 + sim::draw("op.rrset_size", 2) {
+                    rds.insert(canon_rdata(&owner, rtype, &gen_rdata(rtype)));
                 }
-                4 | 5 => {
-                    let existing: Vec<(String, Rtype)> = working.keys().filter(|(_, t)| *t != Rtype::SOA).cloned().collect();
-                    let (o, t) = if !existing.is_empty() && sim::chance("op.rm_existing", 3, 4) { sim::pick("op.rm_which", &existing).clone() } else { (owner, rtype) };
-                    working.remove(&(o.clone(), t));
-                    ops.push(WOp::Remove(o, t));
-                }
-                6 => {
-                    working.insert((owner.clone(), rtype), (ttl, rds.clone()));
-                    ops.push(WOp::RemoveUpdate(owner, rtype, ttl, rds));
-                }
-                _ => {
-                    let soa = working.get(&(APEX.to_string(), Rtype::SOA)).cloned();
-                    working.clear();
-                    let readd = if sim::chance("op.readd_soa", 3, 4) { soa } else { None };
-                    if let Some(s) = &readd {
-                        working.insert((APEX.to_string(), Rtype::SOA), s.clone());
+                match sim::draw("op.kind", 8) {
+                    0..=3 => {
+                        touched.insert((owner.clone(), rtype));
+                        ops.push(WOp::Update(owner, rtype, ttl, rds));
                     }
-                    ops.push(WOp::RemoveAll(readd));
-                }
-            }
-        }
-        let commit = if sim::chance("batch.abort", 1, 4) { None } else { Some(sim::chance("batch.bump", 1, 2)) };
-        if let Some(bump) = commit {
-            if bump {
-                // commit(true) bumps the serial unless the writer wrote an SOA itself.
-                let old = versions.last().unwrap();
-                let old_soa = old.get(&(APEX.to_string(), Rtype::SOA)).cloned();
-                let new_soa = working.get(&(APEX.to_string(), Rtype::SOA)).cloned();
-                if let Some((ttl, rds)) = old_soa.clone() {
-                    if new_soa.is_none() || new_soa == old_soa {
-                        let rd = rds.iter().next().unwrap();
-                        let mut parts: Vec<String> = rd.split_whitespace().map(|s| s.to_string()).collect();
-                        let serial: u32 = parts[2].parse().unwrap();
-                        parts[2] = serial.wrapping_add(1).to_string();
-                        let mut s = BTreeSet::new();
-                        s.insert(canon_rdata(APEX, Rtype::SOA, &parts.join(" ")));
-                        working.insert((APEX.to_string(), Rtype::SOA), (ttl, s));
+                    4 | 5 => {
+                        let existing: Vec<(String, Rtype)> = working.keys().filter(|(_, t)| *t != Rtype::SOA).cloned().collect();
+                        let (o, t) = if !existing.is_empty() && sim::chance("op.rm_existing", 3, 4) { sim::pick("op.rm_which", &existing).clone() } else { (owner, rtype) };
+                        ops.push(WOp::Remove(o, t));
+                    }
+                    6 => {
+                        touched.insert((owner.clone(), rtype));
+                        ops.push(WOp::RemoveUpdate(owner, rtype, ttl, rds));
+                    }
+                    _ => {
+                        let soa = working.get(&(APEX.to_string(), Rtype::SOA)).cloned();
+                        let readd = if sim::chance("op.readd_soa", 3, 4) { soa } else { None };
+                        ops.push(WOp::RemoveAll(readd));
                     }
                 }
+                working = apply_ops(&working, &ops[ops.len() - 1..]);
             }
-            versions.push(working);
+            let commit = if sim::chance("batch.abort", 1, 4) { None } else { Some(sim::chance("batch.bump", 1, 2)) };
+            batches.push(Batch {
+                diff: sim::chance("batch.diff", 1, 2),
+                ops,
+                commit,
+            });
         }
-        batches.push(Batch {
-            diff: sim::chance("batch.diff", 1, 2),
-            ops,
-            commit,
-        });
+        plans_w.push(batches);
     }
-    // What readers ask for by exact name: every RRset that occurs in any version.
-    let mut asks: Vec<(String, Rtype)> = versions.iter().flat_map(|v| v.keys().cloned()).filter(|(_, t)| *t != Rtype::SOA).collect::<BTreeSet<_>>().into_iter().collect();
+    // What readers ask for by exact name: RRsets that occur in some version.
+    let mut asks: Vec<(String, Rtype)> = touched.into_iter().filter(|(_, t)| *t != Rtype::SOA).collect();
     asks.truncate(6);
     let n_readers = 1 + sim::draw("readers", 3) as usize;
     let plans: Vec<(usize, usize)> = (0..n_readers).map(|_| (1 + sim::draw("reader.rounds", 2) as usize, 2 + sim::draw("reader.obs", 2) as usize)).collect();
-    ev!("zone {} rrsets over {:?}; {} batches {:?}; {} readers {:?}; {} versions", c0.len(), names, batches.len(), batches.iter().map(|b| (b.ops.len(), b.commit)).collect::<Vec<_>>(), n_readers, plans, versions.len());
+    ev!("zone {} rrsets over {:?}; writers {:?}; {} readers {:?}", c0.len(), names, plans_w.iter().map(|b| b.iter().map(|b| (b.ops.len(), b.commit)).collect::<Vec<_>>()).collect::<Vec<_>>(), n_readers, plans);
 
     // ---- the threads
     let commits_done = Arc::new(AtomicUsize::new(0));
     let committing = Arc::new(AtomicBool::new(false));
+    let holders = Arc::new(AtomicUsize::new(0));
+    let overlap = Arc::new(AtomicBool::new(false));
+    let committed: Arc<Mutex<Vec<Content>>> = Arc::new(Mutex::new(vec![c0.clone()]));
     let commit_errors: Arc<Mutex<Vec<String>>> = Arc::new(Mutex::new(Vec::new()));
     let mut bodies: Vec<Box<dyn FnOnce() + Send + 'static>> = Vec::new();
-    let mut tnames = vec!["writer".to_string()];
-    {
+    let mut tnames: Vec<String> = Vec::new();
+    for (wi, batches) in plans_w.iter().cloned().enumerate() {
         let zone = zone.clone();
-        let batches = batches.clone();
         let commits_done = commits_done.clone();
         let committing = committing.clone();
         let commit_errors = commit_errors.clone();
+        let committed = committed.clone();
+        let holders = holders.clone();
+        let overlap = overlap.clone();
+        tnames.push(format!("writer{}", wi));
         bodies.push(Box::new(move || {
             for b in batches {
-                let mut w: Box<dyn WritableZone> = now(zone.write());
+                let mut w: Box<dyn WritableZone> = obtain_writer(&zone);
+                if std::env::var("DSIM_DEBUG_THREADS").is_ok() {
+                    eprintln!("writer{} obtained, holders before {}", wi, holders.load(Ordering::SeqCst));
+                }
+                if holders.fetch_add(1, Ordering::SeqCst) != 0 {
+                    overlap.store(true, Ordering::SeqCst);
+                }
+                let base = committed.lock().unwrap().last().unwrap().clone();
+                let mut working = apply_ops(&base, &b.ops);
                 let root = now(w.open(b.diff)).expect("open");
                 for op in &b.ops {
                     match op {
@@ -264,16 +322,37 @@ fn run(_tier: Tier) {
                 drop(root);
                 match b.commit {
                     Some(bump) => {
+                        if bump {
+                            bump_soa(&base, &mut working);
+                        }
                         committing.store(true, Ordering::SeqCst);
                         let res = now(w.commit(bump));
+                        committed.lock().unwrap().push(working);
                         commits_done.fetch_add(1, Ordering::SeqCst);
                         committing.store(false, Ordering::SeqCst);
                         if let Err(e) = res {
                             commit_errors.lock().unwrap().push(format!("{:?}", e));
                         }
+                        // The handle is given up when the writer is dropped
+                        // (any rollback included).
+                        holders.fetch_sub(1, Ordering::SeqCst);
+                        if std::env::var("DSIM_DEBUG_THREADS").is_ok() {
+                            eprintln!("writer{} committed, dropping", wi);
+                        }
                         drop(w);
                     }
-                    None => drop(w), // rollback in Drop
+                    None => {
+                        // Rollback in Drop; the handle counts as held until
+                        // drop() has returned.
+                        if std::env::var("DSIM_DEBUG_THREADS").is_ok() {
+                            eprintln!("writer{} aborting", wi);
+                        }
+                        drop(w);
+                        if std::env::var("DSIM_DEBUG_THREADS").is_ok() {
+                            eprintln!("writer{} aborted", wi);
+                        }
+                        holders.fetch_sub(1, Ordering::SeqCst);
+                    }
                 }
             }
         }));
@@ -313,9 +392,13 @@ fn run(_tier: Tier) {
     let outcome = run_threads(tnames.clone(), bodies);
     sim::stat_add("counter.thread_switches", outcome.switches);
     sim::stat_add("counter.lock_acquisition_points", outcome.steps);
+    let versions: Vec<Content> = committed.lock().unwrap().clone();
     sim::stat_add("counter.commits", (versions.len() - 1) as u64);
-    if batches.iter().any(|b| b.commit.is_none()) {
+    if plans_w.iter().flatten().any(|b| b.commit.is_none()) {
         sim::stat("fault.writer_abort");
+    }
+    if n_writers == 2 {
+        sim::stat("probe.two_writer_threads");
     }
     ev!("threads done: {} steps, {} switches", outcome.steps, outcome.switches);
     // ---- oracles
@@ -325,6 +408,10 @@ fn run(_tier: Tier) {
     }
     if let Some((loc, msg)) = outcome.panics.first() {
         sim::violation(P, "panic", loc.clone(), format!("a zone thread panicked at {}: {}", loc, msg));
+        return;
+    }
+    if overlap.load(Ordering::SeqCst) {
+        sim::violation(P, "writers-serialised", "two-writers-hold-the-zone".to_string(), "a second writer obtained the write handle while the first still held it (or was still rolling back)".to_string());
         return;
     }
     if let Some(e) = commit_errors.lock().unwrap().first() {
